@@ -8,8 +8,10 @@ PROP = {
                                "SwimVerif.Proofs.LinksLaneEvents", "SwimVerif.Proofs.LinksWT",
                                "SwimVerif.Proofs.LinksWTInv", "SwimVerif.Proofs.LinksWTEvents",
                                "SwimVerif.Proofs.LinksWTLane", "SwimVerif.Proofs.LinksWTLive",
-                               "SwimVerif.Proofs.LinksWTCount"],
-    "engines": [wt_engine("C20", quick=4000)],
+                               "SwimVerif.Proofs.LinksWTCount", "SwimVerif.Model.Counters"],
+    "engines": [wt_engine("C20", quick=4000),
+                {"name": "counters-stress", "crate": "core", "bin": "sv-c20s", "machine": "c20s", "modes": ["monitor"],
+                 "cases": {"quick": 48, "thorough": 1600}, "min_shard": 3, "shards": 4, "nontrivial_min_ops": 1}],
     "level_text": "Proof: for every sequence of the registry operations (insert, remove, remove remote, remove lane, "
                   "remove all, event counting, snapshots, reporter registration at lane registration) the count "
                   "reported for every lane with a reporter equals the number of remotes linked to it, the aggregate "
